@@ -20,9 +20,10 @@ type Agg struct {
 	Elems []Val
 }
 type Obj struct {
-	id    int
-	name  string
-	fresh bool
+	id     int
+	name   string
+	fresh  bool
+	global *ssa.Global // set for package-level variables
 }
 type Ptr struct {
 	Obj  *Obj
@@ -54,10 +55,12 @@ func (ev *Evaluator) elemObj(st *State, base string, idxV Val, et types.Type) *O
 	if ev.symObjs == nil {
 		ev.symObjs = map[string]*Obj{}
 	}
-	o, ok := ev.symObjs[name]
+	// the slot that holds element `it` is a different object from what a pointer stored in
+	// that slot points to (symObj(name)): keep their keys apart
+	o, ok := ev.symObjs["slot:"+name]
 	if !ok {
 		o = ev.newObj(name, false)
-		ev.symObjs[name] = o
+		ev.symObjs["slot:"+name] = o
 	}
 	if _, ok := st.mem[o]; !ok {
 		st.mem[o] = selVal(base, it, et)
@@ -150,6 +153,7 @@ type Event struct {
 }
 
 type Evaluator struct {
+	c        *Ctx
 	prog     *ssa.Program
 	nobj     int
 	Events   []Event
@@ -169,6 +173,8 @@ type Evaluator struct {
 	// used by the kernel analyses); otherwise such accesses are weak reads /
 	// weak updates of all elements (sound for dependence questions).
 	symbolicElems bool
+	litCache      map[*ssa.Global]Val
+	unroll        bool   // execute counted loops with constant bounds iteration by iteration
 	ctx           string // calling context (chain of call sites)
 	siteObjs      map[string]*Obj
 }
@@ -282,6 +288,77 @@ func materialise(s *Sym) Val {
 	return s
 }
 
+// foldIntOp folds the integer bit operations on small non-negative constants.
+func foldIntOp(op token.Token, a, b *Term) (*Term, bool) {
+	if a.Op != "c" || b.Op != "c" || !a.C.IsInt() || !b.C.IsInt() || !a.C.Num().IsInt64() || !b.C.Num().IsInt64() {
+		return nil, false
+	}
+	x, y := a.C.Num().Int64(), b.C.Num().Int64()
+	if x < 0 || y < 0 || x > 1<<31 || y > 1<<31 {
+		return nil, false
+	}
+	switch op {
+	case token.AND:
+		return K(x & y), true
+	case token.OR:
+		return K(x | y), true
+	case token.XOR:
+		return K(x ^ y), true
+	case token.AND_NOT:
+		return K(x &^ y), true
+	case token.SHL:
+		if y < 31 {
+			return K(x << uint(y)), true
+		}
+	case token.SHR:
+		if y < 63 {
+			return K(x >> uint(y)), true
+		}
+	case token.REM:
+		if y != 0 {
+			return K(x % y), true
+		}
+	}
+	return nil, false
+}
+
+// aggEqual: a == b for array/struct values, as the conjunction of the component comparisons.
+func aggEqual(a, b Val, depth int) (*Term, bool) {
+	if depth > 3 {
+		return nil, false
+	}
+	if s, ok := a.(*Sym); ok {
+		a = materialise(s)
+	}
+	if s, ok := b.(*Sym); ok {
+		b = materialise(s)
+	}
+	x, ok1 := a.(*Agg)
+	y, ok2 := b.(*Agg)
+	if !ok1 || !ok2 || len(x.Elems) != len(y.Elems) || len(x.Elems) == 0 || len(x.Elems) > 16 {
+		return nil, false
+	}
+	var out *Term
+	for i := range x.Elems {
+		var c *Term
+		ta, oka := x.Elems[i].(*Term)
+		tb, okb := y.Elems[i].(*Term)
+		if oka && okb {
+			c = Cmp("==", ta, tb)
+		} else if cc, ok := aggEqual(x.Elems[i], y.Elems[i], depth+1); ok {
+			c = cc
+		} else {
+			return nil, false
+		}
+		if out == nil {
+			out = c
+		} else {
+			out = cAnd(out, c)
+		}
+	}
+	return out, true
+}
+
 func getPath(v Val, path []int) Val {
 	for _, i := range path {
 		switch x := v.(type) {
@@ -289,11 +366,12 @@ func getPath(v Val, path []int) Val {
 			v = materialise(x)
 			if a, ok := v.(*Agg); ok {
 				if i < 0 || i >= len(a.Elems) {
-					return symVal(x.Path+"[*]", elemType(x.T))
+					v = symVal(x.Path+"[*]", elemType(x.T))
+					continue
 				}
 				v = a.Elems[i]
 			} else {
-				return symVal(x.Path+"[*]", elemType(x.T))
+				v = symVal(x.Path+"[*]", elemType(x.T))
 			}
 		case *Agg:
 			if i < 0 || i >= len(x.Elems) {
@@ -583,6 +661,7 @@ func (ev *Evaluator) globalObj(g *ssa.Global) *Obj {
 		return o
 	}
 	o := ev.newObj("global:"+g.Name(), false)
+	o.global = g
 	ev.globals[g] = o
 	return o
 }
@@ -594,6 +673,23 @@ func (ev *Evaluator) load(st State, p Val, t types.Type) Val {
 			return symVal("?nil-deref", t)
 		}
 		root, ok := st.mem[x.Obj]
+		if !ok && len(x.Path) == 0 && x.Obj.global != nil {
+			// an effectively constant package-level variable reads as its initialiser
+			if it, ok := ev.globalInitTerm(x.Obj.global); ok {
+				return it
+			}
+		}
+		if !ok && x.Obj.global != nil && concretePath(x.Path) {
+			// an immutable array/struct table reads as its composite literal
+			if lv, ok := ev.globalLiteral(x.Obj.global); ok {
+				return getPath(lv, x.Path)
+			}
+		}
+		if !ok && x.Obj.global != nil && len(x.Path) > 0 {
+			if pt, isP := x.Obj.global.Type().(*types.Pointer); isP {
+				root, ok = symVal(x.Obj.name, pt.Elem()), true
+			}
+		}
 		if !ok {
 			root = symVal(x.Obj.name, nil2(t, x))
 			if len(x.Path) == 0 {
@@ -608,6 +704,15 @@ func (ev *Evaluator) load(st State, p Val, t types.Type) Val {
 }
 
 func nil2(t types.Type, p *Ptr) types.Type { return t }
+
+func concretePath(p []int) bool {
+	for _, i := range p {
+		if i < 0 {
+			return false
+		}
+	}
+	return true
+}
 
 func (ev *Evaluator) store(st State, p Val, v Val) {
 	switch x := p.(type) {
@@ -802,6 +907,16 @@ func (ev *Evaluator) instr(fr *frame, ins ssa.Instruction, st *State) {
 		a, aok := fr.get(ev, x.X).(*Term)
 		b, bok := fr.get(ev, x.Y).(*Term)
 		if !aok || !bok {
+			// arrays and structs compare component by component
+			if x.Op == token.EQL || x.Op == token.NEQ {
+				if eq, ok := aggEqual(fr.get(ev, x.X), fr.get(ev, x.Y), 0); ok {
+					if x.Op == token.NEQ {
+						eq = Not(eq)
+					}
+					fr.env[x] = eq
+					return
+				}
+			}
 			// comparisons against nil etc.
 			ak, bk := valKey(fr.get(ev, x.X)), valKey(fr.get(ev, x.Y))
 			switch x.Op {
@@ -838,7 +953,11 @@ func (ev *Evaluator) instr(fr *frame, ins ssa.Instruction, st *State) {
 		case token.LSS, token.LEQ, token.GTR, token.GEQ, token.EQL, token.NEQ:
 			fr.env[x] = Cmp(x.Op.String(), a, b)
 		default:
-			fr.env[x] = Call("op"+x.Op.String(), a, b)
+			if f, ok := foldIntOp(x.Op, a, b); ok {
+				fr.env[x] = f
+			} else {
+				fr.env[x] = Call("op"+x.Op.String(), a, b)
+			}
 		}
 	case *ssa.Convert:
 		v := fr.get(ev, x.X)
